@@ -609,7 +609,7 @@ def _select(ctx, progs, forced=()):
         names.sort(key=lambda n: progs[n]["entry"]["prio"])
         # adaptive budget: on a loaded machine (stage 1 already slow) fewer groups
         el = time.time() - ctx.t0 if hasattr(ctx, "t0") else 0
-        ng, nh = (9, 3) if el < 110 else (6, 2) if el < 200 else (4, 1)
+        ng, nh = (8, 3) if el < 65 else (6, 2) if el < 130 else (4, 1)
         hand_keys = hand_keys[:max(nh, len([k for k in hand_keys if k in forced_by]))]
         for k, n in enumerate(names[:ng]):
             lv = [l for (m, l) in keys if m == n]
@@ -670,8 +670,8 @@ def _select(ctx, progs, forced=()):
     return groups, cover
 
 
-GROUP_DEADLINE = 1950
-TIE_DEADLINE = 2250
+GROUP_DEADLINE = 1700
+TIE_DEADLINE = 2300
 
 
 def stage2(ctx, progs, built=None, forced=()):
@@ -693,7 +693,8 @@ def stage2(ctx, progs, built=None, forced=()):
         rounds = 3 if ctx.tier == "quick" else 5
 
         # thorough: groups not started GROUP_DEADLINE seconds into the run are dropped (groups holding pairs a validator
-        # rejected come first), ties stop at TIE_DEADLINE: a loaded machine keeps the tier budget, an idle one does everything
+        # rejected come first), the ties of the FIRST snapshots stop at TIE_DEADLINE (the tie of the final snapshot is made for
+        # every evaluated group): a loaded machine keeps the tier budget, an idle one does everything
         thorough = ctx.tier != "quick"
         t_run0 = getattr(ctx, "t0", t0)
         if thorough:
@@ -707,11 +708,9 @@ def stage2(ctx, progs, built=None, forced=()):
                 g.compile_defs(f"{os.getpid()}_{k}")
                 res = run_group(g, rounds, f"{os.getpid()}_{k}")
                 # the Coq half of the ties is evaluated here (in parallel); the back-end half runs in the main thread
-                g.tie_pre = {}
-                if not (thorough and time.time() > t_run0 + TIE_DEADLINE):
-                    g.tie_pre["final"] = _tie_prepare(g, f"{os.getpid()}_{k}", "final")
-                    if thorough or k % 3 == 0:
-                        g.tie_pre["first"] = _tie_prepare(g, f"{os.getpid()}_{k}", "first")
+                g.tie_pre = {"final": _tie_prepare(g, f"{os.getpid()}_{k}", "final")}
+                if (thorough and time.time() < t_run0 + TIE_DEADLINE) or (not thorough and k % 3 == 0):
+                    g.tie_pre["first"] = _tie_prepare(g, f"{os.getpid()}_{k}", "first")
                 return g, res, None
             except Exception as e:  # noqa
                 return g, None, f"{type(e).__name__}: {str(e)[-1500:]}"
@@ -744,11 +743,11 @@ def stage2(ctx, progs, built=None, forced=()):
                         continue
                     reported.add(p)
                     found |= _report_tv_mismatch(ctx, progs, g, p, i, j, f"{os.getpid()}_{k}")
-            if thorough and time.time() > t_run0 + TIE_DEADLINE:
-                stats["tie_skipped_budget"] = stats.get("tie_skipped_budget", 0) + 1
-                continue
+            # the tie of the final snapshot: every evaluated group, no deadline (its Coq half is already there)
             found |= _tie(ctx, progs, g, stats, f"{os.getpid()}_{k}")
-            if ctx.tier == "thorough" or k % 3 == 0:
+            if thorough and (time.time() > t_run0 + TIE_DEADLINE or "first" not in g.tie_pre):
+                stats["tie_skipped_budget"] = stats.get("tie_skipped_budget", 0) + 1
+            elif thorough or k % 3 == 0:
                 found |= _tie(ctx, progs, g, stats, f"{os.getpid()}_{k}", which="first")
         for g in groups:
             g.cleanup()
